@@ -1,4 +1,5 @@
 """C03 BPE applies merges canonically (lowest id, leftmost): shape of the merge loop of merge_bytes."""
+import re
 from analysis.engine import rule, AnchorMissing
 from analysis import cfg
 from analysis.sym import sym, show, show_in, nosite, peel, deep_peel, guards_at, atoms_at, cmp_facts_at, ret_values, \
@@ -362,26 +363,60 @@ def r5(ctx):
                 # (`.filter(|id| id > merge_id)`, "a merge is younger than its parts", drops entries that the canonical procedure applies)
                 idt = tup[3][0]
                 chain = []
-                cur = idt
-                for _ in range(12):
-                    if isinstance(cur, tuple) and cur and cur[0] in ('unwrap', 'ref', 'deref', 'copy', 'move', 'cast') and len(cur) > 1 and isinstance(cur[1], tuple):
-                        cur = cur[1]
-                        continue
-                    if isinstance(cur, tuple) and cur and cur[0] == 'field' and isinstance(cur[1], tuple) and cur[1] and cur[1][0] == 'variant' and cur[1][2] in ('Some', 'Ok', 'Continue'):
-                        cur = cur[1][1]
-                        continue
-                    if isinstance(cur, tuple) and cur and cur[0] in ('var', 'phi'):
+                from analysis.alts import expand as _expand, flatten as _flatten
+                IDENT = ('copied', 'cloned', 'branch', 'as_ref', 'map', 'clone', 'deref', 'ok_or', 'into', 'from', 'as_deref')
+
+                def is_err(v_):
+                    v_ = peel(v_)
+                    return isinstance(v_, tuple) and v_ and ((v_[0] == 'agg' and v_[1] == 'adt' and (v_[2].endswith('Option::None') or v_[2].endswith('Result::Err'))) or
+                                                             (v_[0] == 'call' and v_[1].rsplit('::', 1)[-1] == 'from_residual'))
+
+                def is_direct(cur, depth=0):
+                    """cur is the answer of HashMap::get on the merge table, reached through wrappers, tuple components, the Some of a spliced helper
+                    and identity adaptors only"""
+                    if depth > 14 or not (isinstance(cur, tuple) and cur):
+                        return False
+                    k = cur[0]
+                    if k in ('unwrap', 'ref', 'deref', 'copy', 'move', 'cast') and len(cur) > 1 and isinstance(cur[1], tuple):
+                        return is_direct(cur[1], depth + 1)
+                    if k == 'agg' and cur[1] == 'adt' and cur[3] and (cur[2].endswith('Option::Some') or cur[2].endswith('Result::Ok')):
+                        return is_direct(cur[3][0], depth + 1)
+                    if k == 'field' and isinstance(cur[1], tuple) and cur[1] and cur[1][0] == 'variant' and cur[1][2] in ('Some', 'Ok', 'Continue'):
+                        return is_direct(cur[1][1], depth + 1)
+                    if k == 'field' and isinstance(cur[2], int):
+                        # a component of a tuple that a (spliced) helper returned: every non-error alternative must be a tuple whose component is direct
+                        base = cur[1]
+                        while isinstance(base, tuple) and base and base[0] in ('unwrap', 'ref', 'deref', 'copy', 'move') and isinstance(base[1], tuple):
+                            base = base[1]
+                        alts_ = [a_.value for a_ in _flatten(_expand(ctx.facts, clo, nosite(base)))] if base[0] in ('var', 'phi') else [base]
+                        good_ = []
+                        for v_ in alts_:
+                            if is_err(v_):
+                                continue
+                            v_ = peel(v_)
+                            if v_[0] == 'agg' and v_[1] == 'adt' and v_[3] and (v_[2].endswith('Option::Some') or v_[2].endswith('Result::Ok')):
+                                v_ = peel(v_[3][0])
+                            if not (v_[0] == 'agg' and v_[1] == 'tuple' and cur[2] < len(v_[3])):
+                                return False
+                            good_.append(v_[3][cur[2]])
+                        return bool(good_) and all(is_direct(g_, depth + 1) for g_ in good_)
+                    if k in ('var', 'phi'):
                         nv = init_value(clo, cur)
                         if nv != cur:
-                            cur = nv
-                            continue
-                    if isinstance(cur, tuple) and cur and cur[0] == 'call' and cur[2] and not cur[1].endswith('HashMap::get'):
-                        chain.append(cur[1].rsplit('::', 1)[-1])
-                        cur = cur[2][0]
-                        continue
-                    break
-                direct = isinstance(cur, tuple) and cur and cur[0] == 'call' and cur[1].endswith('HashMap::get') and \
-                    all(n_ in ('copied', 'cloned', 'branch', 'as_ref', 'map', 'clone', 'deref', 'ok_or', 'into', 'from') for n_ in chain)
+                            return is_direct(nv, depth + 1)
+                        alts_ = [a_.value for a_ in _flatten(_expand(ctx.facts, clo, nosite(cur)))]
+                        good_ = [v_ for v_ in alts_ if not is_err(v_)]
+                        return bool(good_) and all(peel(v_) != cur and is_direct(v_, depth + 1) for v_ in good_)
+                    if k == 'call' and cur[2]:
+                        if cur[1].endswith('HashMap::get'):
+                            return True
+                        n_ = cur[1].rsplit('::', 1)[-1]
+                        if n_ in IDENT:
+                            return is_direct(cur[2][0], depth + 1)
+                        chain.append(n_)
+                        return False
+                    return False
+                direct = is_direct(idt)
                 ctx.require(direct, clo, 'lookup-unfiltered|' + side, '%s candidate: the merge id is the table entry of the concatenation, unconditionally' % side,
                             '%s candidate: the table entry passes through `%s` before it becomes a candidate: entries of the table are ignored' % (
                                 side, ' / '.join(n_ for n_ in chain if n_ not in ('copied', 'cloned', 'branch')) or sh(idt)[:80]), clo.blocks[bb].term.span)
@@ -514,6 +549,9 @@ def r8(ctx):
     from analysis.pat import match, Call, ANY, Pred, has
     from analysis.sym import core, symbolizer, simplify, defs_of
     b = _mb(ctx)
+    # ... and the word splitter itself cuts at Unicode whitespace only (the words the merges were learned on)
+    from rules.common import word_pattern_is_whitespace_only
+    word_pattern_is_whitespace_only(ctx, b, 'merge-unit')
     outer = None
     for lp in sorted(cfg.loops(b), key=lambda l: -len(l.blocks)):
         nx = next_call_of(b, lp)
@@ -614,5 +652,26 @@ def r9(ctx):
         ctx.require(not uses_key, b, 'table-filter-by-id', 'the merge table is cut by merge id only (line %d)' % t.span['line'],
                     'BPETokenizer::new filters the merge table by the token bytes (line %d): intermediate merges of multi-byte characters are dropped and the '
                     'merges built on them become unreachable' % t.span['line'], t.span)
+    # the cut written as "sort the entries, keep the first k": it is a cut by id only when the sort key is the id. `sorted()` on the (bytes, id)
+    # entries orders them by their BYTES: the k lexicographically smallest merges are kept, a set that is neither a prefix of the table nor
+    # closed under its constituents
+    for t in b.calls(r'Iterator::take$'):
+        src = init_value(b, sym(b, t.args[0]))
+        if 'HashMap<std::vec::Vec<u8>, u32>' not in ' '.join(b.local_ty(x[2]) for x in walk(core(src)) if isinstance(x, tuple) and x and x[0] == 'var' and len(x) > 2) and \
+                not has(src, Pred(lambda u: u[0] == 'var' and 'merge' in str(u[1]))):
+            continue
+        srt = [x for x in walk(src) if isinstance(x, tuple) and x and x[0] == 'call' and re.search(r'::sorted(_unstable)?(_by|_by_key|_by_cached_key)?$', x[1])]
+        if not srt:
+            continue
+        n += 1
+        name = srt[0][1].rsplit('::', 1)[-1]
+        by_id = False
+        if name.endswith('by_key') and len(srt[0][2]) == 2:
+            clo = closure_of(ctx, srt[0][2][1])
+            rvk = ret_values(clo)
+            by_id = len(rvk) == 1 and has(core(rvk[0][0]), ('field', ('arg', 2, ANY), 1)) and not has(core(rvk[0][0]), ('field', ('arg', 2, ANY), 0))
+        ctx.require(by_id, b, 'table-cut-order', 'the merges kept by `take` are the first ones BY ID (line %d)' % t.span['line'],
+                    'BPETokenizer::new keeps the first merges after `%s` (line %d), which orders the (bytes, id) entries by their bytes: the merges that survive the '
+                    'max_vocab_size cut are the lexicographically smallest, lower-id merges are dropped and multi-level merges lose their constituents' % (name, t.span['line']), t.span)
     if n < 1:
         raise AnchorMissing('the max_vocab_size cut of the merge table in BPETokenizer::new')
